@@ -9,6 +9,7 @@ From Pika Require Import Base.Conc Base.Agent Model.CondVar
   Proofs.CondVarInvA Proofs.CondVarInvB Proofs.CondVarInvC Proofs.CondVarProofs Proofs.CondVarStop
   Proofs.CondVarTimedStop.
 From Pika Require Import Model.CondVarAbort Proofs.CondVarAbortProofs.
+From Pika Require Import Gen.GenTimedPred Model.TimedPredLoop Proofs.TimedPredLoopProofs Proofs.CondVarTimedPred.
 Import ListNotations.
 
 (* releasing the user lock and becoming a waiter is atomic with respect to notifiers: whenever another
@@ -154,7 +155,8 @@ Print Assumptions C07_timed_stop_wait_returns.
 
 (* the deciding steps of the timed stop-token wait, from any state: the re-check under the internal lock
    returns false once stop has been requested (and releases the internal lock); after the detail wait
-   should_stop = timeout || stop_requested(); with should_stop the wait re-locks U and returns pred(), without
+   should_stop = timeout || stop_requested(); with should_stop the wait re-locks U and THEN, in a step of its own
+   (CPredRet: the `return pred();` of the header, regenerated into Gen/GenTimedPred.v), returns pred(), without
    it re-evaluates the predicate; a sleeper is always enabled and leaves the sleep once the deadline passed *)
 Theorem C07_timed_stop_wait_steps : forall isos late t g td h r,
   let at_pc p := {| ctodo := CWaitStopFor :: td; cpc := p; hu := h; reg := r |} in
@@ -165,7 +167,9 @@ Theorem C07_timed_stop_wait_steps : forall isos late t g td h r,
      cpc (snd s) = CLockU (sg && negb (stopreq g)) /\ ilock (fst s) = None) /\
   (uowner g = None ->
      let s := cv_tstep isos late t g (at_pc (CLockU false)) in
-     cvlog (fst s) = ERet t CWaitStopFor (flag g) :: cvlog g /\ uowner (fst s) = Some t /\ ctodo (snd s) = td) /\
+     cpc (snd s) = CPredRet /\ uowner (fst s) = Some t /\ hu (snd s) = true /\ cvlog (fst s) = cvlog g) /\
+  (let s := cv_tstep isos late t g (at_pc CPredRet) in
+     cvlog (fst s) = ERet t CWaitStopFor (flag g) :: cvlog g /\ uowner (fst s) = uowner g /\ ctodo (snd s) = td) /\
   (uowner g = None -> cpc (snd (cv_tstep isos late t g (at_pc (CLockU true)))) = CPredTest) /\
   (cv_enabled isos t g (at_pc CSleep) = true /\ cpc (snd (cv_tstep isos true t g (at_pc CSleep))) = CRelockI).
 Proof. exact timed_stop_steps. Qed.
@@ -246,7 +250,7 @@ Proof. vm_compute. repeat split. Qed.
    pred() = false holding U, its callback removed *)
 Example C07_example_timed_stop_request_after_registration :
   let progs := fun t => match t with 0 => [CLockUOp; CWaitStopFor] | 1 => [CRequestStop] | _ => [] end in
-  let c := cv_run (fun _ => false) (rr 10 0 ++ rr 5 1 ++ [(0,true)] ++ rr 4 0) progs in
+  let c := cv_run (fun _ => false) (rr 10 0 ++ rr 5 1 ++ [(0,true)] ++ rr 5 0) progs in
   rev (cvlog (fst c)) = [EPush 0; ENotify 1 true 1; ERet 0 CWaitStopFor false] /\
   uowner (fst c) = Some 0 /\ cbs (fst c) = [] /\ ilock (fst c) = None /\ cqueue (fst c) = [] /\
   ctodo (snd c 0) = [] /\ ctodo (snd c 1) = [].
@@ -267,8 +271,8 @@ Example C07_example_timed_stop_deadline :
   let progs := fun t => match t with
      | 0 => [CLockUOp; CWaitStopFor; CUnlockUOp] | 1 => [CLockUOp; CSetFlag true; CUnlockUOp]
      | 2 => [CLockUOp; CWaitStopFor] | _ => [] end in
-  let c := cv_run (fun _ => false) (rr 10 0 ++ rr 3 1 ++ [(0,true)] ++ rr 5 0 ++ [(1,false)]) progs in
-  let d := cv_run (fun _ => false) (rr 10 2 ++ [(2,true)] ++ rr 4 2) (fun t => match t with 2 => progs 2 | _ => [] end) in
+  let c := cv_run (fun _ => false) (rr 10 0 ++ rr 3 1 ++ [(0,true)] ++ rr 6 0 ++ [(1,false)]) progs in
+  let d := cv_run (fun _ => false) (rr 10 2 ++ [(2,true)] ++ rr 5 2) (fun t => match t with 2 => progs 2 | _ => [] end) in
   rev (cvlog (fst c)) = [EPush 0; ERet 0 CWaitStopFor true] /\ uowner (fst c) = None /\ cbs (fst c) = [] /\
   rev (cvlog (fst d)) = [EPush 2; ERet 2 CWaitStopFor false] /\ uowner (fst d) = Some 2 /\ cbs (fst d) = [].
 Proof. vm_compute. repeat split. Qed.
@@ -350,8 +354,7 @@ Example C07_example_abort_all :
   map (fun t => apc (snd cf t)) [0; 1; 2; 3] = [ADone; QDone; QDone; QDone] /\ aq (fst cf) = [] /\ ai (fst cf) = None.
 Proof. vm_compute. repeat split; reflexivity. Qed.
 
-(* ======== round p12a: the global invariant of abort_all left open in round w11c ========
-   Proofs/CondVarAbortGlobal.v, invariant GI over every schedule: the accounting invariant + roles + the internal lock (its holder is
+(* ======== round p12a: the global invariant of abort_all left open in round w11c =   Proofs/CondVarAbortGlobal.v, invariant GI over every schedule: the accounting invariant + roles + the internal lock (its holder is
    inside a critical section) + W1: a BLOCKED waiter is at its suspension point and its entry is still pending (in queue_, in the
    aborter's local list, or the one being aborted right now) + W2: between push and suspend the entry is pending or the wake-up token
    is already there + for pika tasks: exceptions (+ undelivered reason) <= abort() calls. *)
@@ -416,3 +419,71 @@ Theorem C07_abort_all_os_waiter_throws_every_wait : forall a isos waits sched t,
   thrown (fst cf) t + remaining (snd cf t) = waits t /\ (apc (snd cf t) = QDone -> thrown (fst cf) t = waits t).
 Proof. exact os_waiter_throws_every_wait. Qed.
 Print Assumptions C07_abort_all_os_waiter_throws_every_wait.
+=======
+(* ---- the timed predicate forms  wait_until / wait_for (lock, t, pred)  and  (lock, stop_token, t, pred) ----
+   (round h12a; the expression returned after a time-out is regenerated from the header into Gen/GenTimedPred.v on
+   every run: these statements — and C07_wait_returns_with_lock_and_pred above — are about the header as it is now) *)
+
+(* concurrent model, any state: after the time-out the waiter FIRST re-acquires the user lock (that step returns and
+   logs nothing; it stutters while another thread owns the lock) and THEN, in a step of its own (CPredRet = the
+   `return pred();` of the header), returns the value the predicate has at that step, the lock still owned *)
+Theorem C07_timed_pred_reevaluates_with_lock : forall isos late t g o td h r,
+  is_timed_pred o = true ->
+  let at_pc p := {| ctodo := o :: td; cpc := p; hu := h; reg := r |} in
+  (uowner g = None ->
+     let s := cv_tstep isos late t g (at_pc (CLockU false)) in
+     cpc (snd s) = CPredRet /\ uowner (fst s) = Some t /\ hu (snd s) = true /\ cvlog (fst s) = cvlog g /\
+     flag (fst s) = flag g) /\
+  (forall n, uowner g = Some n -> cv_tstep isos late t g (at_pc (CLockU false)) = (g, at_pc (CLockU false))) /\
+  (let s := cv_tstep isos late t g (at_pc CPredRet) in
+     cvlog (fst s) = ERet t o (flag g) :: cvlog g /\ uowner (fst s) = uowner g /\ flag (fst s) = flag g /\
+     ctodo (snd s) = td /\ cpc (snd s) = CIdle).
+Proof. exact timed_pred_reevaluates_with_lock. Qed.
+Print Assumptions C07_timed_pred_reevaluates_with_lock.
+
+(* ... and in every reachable state the thread that is about to evaluate that final predicate owns the user lock *)
+Theorem C07_timed_pred_final_evaluation_owns_lock : forall isos progs sched t,
+  let c := cv_run isos sched progs in
+  cpc (snd c t) = CPredRet -> uowner (fst c) = Some t /\ hu (snd c t) = true.
+Proof. exact predret_owns_lock. Qed.
+Print Assumptions C07_timed_pred_final_evaluation_owns_lock.
+
+(* the loop of the header on its own (Model/TimedPredLoop.v: scripted predicate p, oracle w for the inner timed
+   waits), for each of the three loops with the expression it has now: whenever the call returns, the newest event
+   of its trace is an evaluation of the predicate — made after the last inner wait, i.e. with the user lock
+   re-acquired — and the call returns THAT value; every earlier evaluation was false *)
+Theorem C07_timed_pred_returns_last_evaluation : forall fuel p w res,
+  (tp_call cv_on_timeout fuel p w = Some res \/ tp_call cva_on_timeout fuel p w = Some res \/
+   tp_call cvs_on_timeout fuel p w = Some res) ->
+  exists n rest, snd res = TpPred (fst res) :: rest /\ fst res = p n /\ (forall k, k < n -> p k = false) /\
+                 tp_evals (snd res) = S n.
+Proof. exact timed_pred_returns_last_evaluation. Qed.
+Print Assumptions C07_timed_pred_returns_last_evaluation.
+
+(* the loop returns as soon as an inner wait times out (hypothesis satisfiable: every deadline passes) *)
+Theorem C07_timed_pred_terminates : forall ot k p w i j tr,
+  w (j + k) = true -> exists res, tp_run ot (S k) p w i j tr = Some res.
+Proof. exact tp_terminates. Qed.
+Print Assumptions C07_timed_pred_terminates.
+
+(* non-vacuity / the late scenario: predicate false at the first evaluation, the inner wait times out, predicate true
+   when the lock is re-acquired: the loop as written returns true, a loop returning a constant returns a stale false *)
+Example C07_example_timed_pred_late_loop :
+  let p := script [false; true] false in let w := script [true] true in
+  tp_call (OT_Const false) 3 p w = Some (false, [TpWait true; TpPred false]) /\
+  tp_call OT_Reeval 3 p w = Some (true, [TpPred true; TpWait true; TpPred false]).
+Proof. exact const_false_is_stale. Qed.
+
+(* the late scenario in the concurrent model (tasks and OS threads): the notifier takes the user lock while the waiter
+   sleeps and keeps it across the deadline; the waiter times out and spins on the user lock (predicate still false);
+   the notifier sets the predicate, notifies (nobody is queued any more), unlocks; the waiter re-acquires the lock,
+   evaluates the predicate in a step of its own and returns TRUE *)
+Example C07_example_timed_pred_late : forall os : bool,
+  let isos := fun _ : nat => os in
+  let c1 := cv_run isos late_sched_1 late_progs in
+  let c2 := cv_run isos (late_sched_1 ++ late_sched_2) late_progs in
+  let c3 := cv_run isos (late_sched_1 ++ late_sched_2 ++ [(0, false)]) late_progs in
+  (cpc (snd c1 0) = CLockU false /\ flag (fst c1) = false /\ uowner (fst c1) = Some 1 /\ cvlog (fst c1) = [EPush 0]) /\
+  (cpc (snd c2 0) = CPredRet /\ flag (fst c2) = true /\ uowner (fst c2) = Some 0 /\ ctodo (snd c2 1) = []) /\
+  (hd_error (cvlog (fst c3)) = Some (ERet 0 CWaitForPred true) /\ uowner (fst c3) = Some 0).
+Proof. exact late_scenario. Qed.
